@@ -49,8 +49,8 @@ class RichGen(gen_doc.Gen):
       return r.choice(['', 'é☃', 'a\x00b', 'x' * 300, '[1,2]', "['L']", ' ', 'a\nb', 'NaN', '1e5', 'None', '0'])
     if base == 'Any':
       return r.choice([['d', 86400.0 * r.randint(-30000, 60000)], ['D', 1.6e9 + r.randint(0, 10 ** 7) + 0.5, r.choice(ZONES)],
-                       ['L', 1, ['L', 'a', None], 2.5], ['O', {'a': 1, 'b': ['L', 'x']}], ['R', 'Tab1', 1], ['r', 'Tab1', [1, 2]],
-                       ['E', 'ValueError', 'msg'], ['U', 'x'], ['P'], ['C'], float('nan'), float('inf'), 2 ** 40, -2 ** 63, True, None,
+                       ['L', 1, ['L', 'a', None], 2.5], ['O', {'a': 1, 'b': ['L', 'x']}],
+                       ['E', 'ValueError', 'msg'], ['P'], ['C'], float('nan'), float('inf'), 2 ** 40, -2 ** 63, True, None,
                        ['L'], ['L', float('nan')], 1e300, 'text', 3])
     if base == 'Date':
       return r.choice([['d', 86400.0 * r.randint(-30000, 60000)], 86400.0 * r.randint(0, 20000) + 0.25, -86400.0 * 5000, 'not a date',
@@ -121,7 +121,7 @@ class RichFormulaGen(gen_formula.FormulaGen):
 
 def plan(tier, seed):
   n, steps = (16, 40) if tier == 'quick' else (160, 70)
-  return [{'witness': 'summary_raising_key'}, {'witness': 'nan_groupby_key'}] + \
+  return [{'witness': 'summary_raising_key'}, {'witness': 'nan_groupby_key'}, {'witness': 'big_int'}] + \
          [{'hseed': seed * 100003 + 7000 + i, 'steps': steps, 'every': 5} for i in range(n)]
 
 
@@ -263,10 +263,14 @@ class ReopenMonitor(histories.Monitor):
       if not reply.stored and not d:
         return
       detail = {'bundle': bundle, 'diff': d, 'stored': reply.stored[:6]}
+      self.detail = detail
       # Attribution (DESIGN.md 3.6): was the live state a fixpoint of its own data?
+      self.type_change = None
       if self.live_was_stale(h, S, R, fresh, reply):
         acc.count('prestate_not_a_fixpoint')
         return
+      if self.type_change:
+        detail['type_change'] = self.type_change
       if reply.stored:
         h.violation(self.classify('reopen_emits_stored', S, R, reply), 'Calculate on the reopened document emitted %d stored actions: %s' % (
             len(reply.stored), snapshot._short(reply.stored[:2], 400)), detail)
@@ -276,11 +280,19 @@ class ReopenMonitor(histories.Monitor):
       fresh.close()
 
   def classify(self, default, S, R, reply):
+    tc = getattr(self, 'type_change', None)
+    if tc:
+      return known_type_change(tc, S, R) or 'load_changes_value_type:%s->%s' % (tc[3], tc[4])
     return default
 
   def live_was_stale(self, h, S, R, fresh, reply):
+    """Attribution (DESIGN.md 3.6). True iff the case is C05's: the two documents differ in formula cells only, both engines
+    hold values of the same Python types in every data cell (so formulas read the same things), and a from-scratch
+    recalculation of the live data disagrees with the live state."""
     kind, d = histories.trace_kind(S, R)
-    if kind == 'data':
+    self.type_change = first_type_change(h.proc.call('verif_py', 'props.C07_inproc', 'typed_data'),
+                                         fresh.call('verif_py', 'props.C07_inproc', 'typed_data'))
+    if self.type_change or kind == 'data':
       return False
     try:
       F, _ = reload.scratch_snapshot(h.proc)
@@ -290,6 +302,46 @@ class ReopenMonitor(histories.Monitor):
     if not snapshot.diff(S, F, maxn=1):
       return False
     return True
+
+
+def first_type_change(A, B):
+  """None, or [table, column, row, live signature, reopened signature, all (live, reopened) signature pairs] over the data
+  cells that both engines have and whose raw values differ in Python type."""
+  first = None
+  pairs = set()
+  for t in sorted(set(A) & set(B)):
+    ra = {r: i for i, r in enumerate(A[t]['rows'])}
+    rb = {r: i for i, r in enumerate(B[t]['rows'])}
+    for c in sorted(set(A[t]['cols']) & set(B[t]['cols'])):
+      for r in sorted(set(ra) & set(rb)):
+        x, y = A[t]['cols'][c][ra[r]], B[t]['cols'][c][rb[r]]
+        if x != y:
+          pairs.add((x, y))
+          if first is None:
+            first = [t, c, r, x, y]
+  return first + [sorted(pairs)] if first else None
+
+
+def user_data_equal(S, R):
+  """True iff every data (non-formula) column of every non-summary user table reports the same values in S and R."""
+  fc = histories.formula_cols(S)
+  summaries = set(t['tableId'] for t in snapshot.rows_of(S, '_grist_Tables').values() if t['summarySourceTable'])
+  for t in S:
+    if t.startswith('_grist_') or t in summaries:
+      continue
+    if t not in R or S[t][0] != R[t][0]:
+      return False
+    for c in S[t][1]:
+      if (t, c) not in fc and S[t][1][c] != R[t][1].get(c):
+        return False
+  return True
+
+
+def known_type_change(tc, S, R):
+  """Mechanism key of a listed finding that explains the type changes, or None."""
+  if tc and user_data_equal(S, R) and all(x == y.replace('UnmarshallableValue', 'int') for x, y in tc[5]):
+    return 'big_int_reopens_as_unmarshallable'
+  return None
 
 
 def witness_summary_raising_key(acc):
@@ -339,6 +391,33 @@ def witness_nan_groupby_key(acc):
     if (d or reply.stored) and all(x.startswith('T_summary_B') for x in d) and all(a[1] == 'T_summary_B' for a in reply.stored):
       acc.violation('nan_lookup_key', 'witness: T.B = [nan, 1.0], summary by B, reopened: stored %s, diff %s' % (
           snapshot._short(reply.stored[:2], 300), d[:2]), {'diff': d, 'stored': reply.stored})
+    elif d or reply.stored:
+      acc.violation('reopen_state_differs', 'witness history: %s %s' % (reply.stored[:3], d[:3]), {'diff': d, 'stored': reply.stored})
+
+
+def witness_big_int(acc):
+  """Open finding big_int_reopens_as_unmarshallable: an Any data cell holding an int beyond 32 bits (entered, or left by a
+  trigger formula such as 2 ** 40) is reported as ['U', '<digits>'], which loads as an UnmarshallableValue object: formulas
+  that read the cell stop seeing a number."""
+  from vlib.client import EngineProc
+  with EngineProc() as p:
+    p.init_doc()
+    p.apply([['AddTable', 'T', [{'id': 'A', 'type': 'Int', 'isFormula': False},
+                                {'id': 'B', 'type': 'Any', 'isFormula': False, 'formula': '2 ** 40 + $A'},
+                                {'id': 'F', 'type': 'Any', 'isFormula': True, 'formula': '$B % 7'}]]])
+    p.apply([['AddRecord', 'T', None, {'A': 1}]])
+    S = snapshot.take(p)
+    fresh, reply, info = reopen.reopen(p)
+    try:
+      R = snapshot.take(fresh)
+      tc = first_type_change(p.call('verif_py', 'props.C07_inproc', 'typed_data'), fresh.call('verif_py', 'props.C07_inproc', 'typed_data'))
+    finally:
+      fresh.close()
+    acc.count('witness_runs')
+    d = snapshot.diff(S, R)
+    if (d or reply.stored) and known_type_change(tc, S, R) == 'big_int_reopens_as_unmarshallable':
+      acc.violation('big_int_reopens_as_unmarshallable', 'witness: T.B = 2 ** 40 + $A left by a trigger formula, F = $B %% 7, reopened: stored %s, '
+                    'diff %s' % (snapshot._short(reply.stored[:2], 300), d[:2]), {'diff': d, 'stored': reply.stored, 'type_change': tc})
     elif d or reply.stored:
       acc.violation('reopen_state_differs', 'witness history: %s %s' % (reply.stored[:3], d[:3]), {'diff': d, 'stored': reply.stored})
 
